@@ -158,6 +158,7 @@ func checkC03(c *ev.Ctx) {
 			}
 		}
 		featMu.Unlock()
+		noteCase(s.ID)
 		if !want(c, s.ID) {
 			return
 		}
